@@ -59,6 +59,49 @@ Proof.
 Qed.
 End Pair.
 
+
+(* ------------------------------------ a ghost component next to the state *)
+Section Ghost.
+Variables St G : Type.
+Variable succs : nat -> list (nat * dep).
+Variable step : St -> nat -> nat * dep -> St.
+Variable gstep : St -> G -> nat -> nat * dep -> G.
+Definition stepg (sg : St * G) (u : nat) (e : nat * dep) : St * G :=
+  (step (fst sg) u e, gstep (fst sg) (snd sg) u e).
+
+Lemma inner_ghost u : forall l (acc : (St * G) * list nat) (acc' : St * list nat),
+  fst (fst acc) = fst acc' -> snd acc = snd acc' ->
+  let r := fold_left (fun (a2 : (St * G) * list nat) e => (stepg (fst a2) u e, dedup_add (fst e) (snd a2))) l acc in
+  let r' := fold_left (fun (a2 : St * list nat) e => (step (fst a2) u e, dedup_add (fst e) (snd a2))) l acc' in
+  fst (fst r) = fst r' /\ snd r = snd r'.
+Proof.
+  induction l as [|e l IH]; intros acc acc' H1 H2; cbv zeta; cbn [fold_left]; [split; assumption|].
+  apply IH; cbn [fst snd]; [unfold stepg; cbn [fst]; rewrite H1; reflexivity|rewrite H2; reflexivity].
+Qed.
+
+Lemma round_ghost : forall front (acc : (St * G) * list nat) (acc' : St * list nat),
+  fst (fst acc) = fst acc' -> snd acc = snd acc' ->
+  let r := fold_left (fun a src => inner (St * G) succs stepg src a) front acc in
+  let r' := fold_left (fun a src => inner St succs step src a) front acc' in
+  fst (fst r) = fst r' /\ snd r = snd r'.
+Proof.
+  induction front as [|u front IH]; intros acc acc' H1 H2; cbv zeta; cbn [fold_left]; [split; assumption|].
+  destruct (inner_ghost u (succs u) acc acc' H1 H2) as [A B]. apply IH; assumption.
+Qed.
+
+Lemma loop_ghost : forall fuel s g front,
+  fst (loop (St * G) succs stepg fuel (s, g) front) = loop St succs step fuel s front.
+Proof.
+  induction fuel as [|f IH]; intros s g front; cbn [loop]; [reflexivity|].
+  destruct front as [|x r]; [reflexivity|].
+  destruct (round_ghost (x :: r) ((s, g), []) (s, []) eq_refl eq_refl) as [A B].
+  unfold round. cbv zeta in A, B.
+  destruct (fold_left (fun a src => inner (St * G) succs stepg src a) (x :: r) ((s, g), [])) as [[s1 g1] n1].
+  destruct (fold_left (fun a src => inner St succs step src a) (x :: r) (s, [])) as [s2 n2].
+  cbn [fst snd] in A, B. subst. apply IH.
+Qed.
+End Ghost.
+
 (* an invariant of the frontier iteration that every step preserves *)
 Lemma loop_inv {St} (succs : nat -> list (nat * dep)) (step : St -> nat -> nat * dep -> St) (P : St -> Prop) :
   (forall s u e, In e (succs u) -> P s -> P (step s u e)) -> forall fuel s front, P s -> P (loop St succs step fuel s front).
@@ -316,6 +359,208 @@ Proof.
   pose proof (dg_range_in DAG o _ He) as Hp. cbn [fst] in Hp. lia.
 Qed.
 
+
+(* ============================================ forward pass, any remaining work *)
+(* Without a sign condition on the remaining work a relaxation may fail against
+   the initial est, and a node can be read while its eft is still the value of
+   the previous update.  Both runs still take the same branches (est depends on
+   est and rem only); a ghost records, for every node, which edge set its values
+   last and what the source looked like then; at the end of the iteration the
+   source of every such edge is unchanged since (it would have been re-queued),
+   so the final eft of a node is a function of the final eft of its last source
+   -- in both runs the same function. *)
+Section FwdAny.
+Variable tm : Q.
+Variable R : nat -> Q.
+Variables Ea Eb : nat -> Q.
+
+Definition E1 (k : dep) (eu ru : Q) : Q := match k with FS => (eu + ru)%Q | _ => (eu + 0)%Q end.
+Definition F1 (k : dep) (eu ru rv fu : Q) : Q :=
+  match k with
+  | FS => ((eu + ru) + rv)%Q
+  | SS => ((eu + 0) + rv)%Q
+  | FF => let b := ((eu + 0) + rv)%Q in if Qltb b fu then fu else b
+  | SF => let b := ((eu + 0) + rv)%Q in if Qltb b eu then eu else b
+  end.
+
+Lemma fwd_vals_E1 k xi xn : fst (fwd_vals k xi xn) = E1 k (est xi) (rem xi).
+Proof. destruct k; reflexivity. Qed.
+Lemma fwd_vals_F1 k xi xn : snd (fwd_vals k xi xn) = F1 k (est xi) (rem xi) (rem xn) (eft xi).
+Proof. destruct k; reflexivity. Qed.
+Lemma E1_mono k eu eu' ru : (eu <= eu')%Q -> (E1 k eu ru <= E1 k eu' ru)%Q.
+Proof. intros H. destruct k; cbn; lra. Qed.
+
+Definition ghost := nat -> option (nat * dep * Q * Q * Q).
+Definition gstep (ab : pstate * pstate) (g : ghost) (u : nat) (e : nat * dep) : ghost :=
+  let a := fst ab in let b := snd ab in let v := fst e in let k := snd e in
+  if Qleb (est (td a v)) (E1 k (est (td a u)) (rem (td a u)))
+  then upd g v (Some (u, k, est (td a u), eft (td a u), eft (td b u))) else g.
+
+Notation step3 := (stepg (pstate * pstate) ghost (step2 pstate fwd_edge) gstep).
+
+Definition GoodG (x : (pstate * pstate) * ghost) : Prop :=
+  let a := fst (fst x) in let b := snd (fst x) in let g := snd x in
+  (forall v, v < nT c -> st (td a v) = st (td b v) /\ rem (td a v) = rem (td b v) /\ aw (td a v) = aw (td b v)
+                         /\ af (td a v) = af (td b v) /\ est (td a v) = est (td b v) /\ rem (td a v) = R v)
+  /\ (forall v, v < nT c ->
+        match g v with
+        | None => eft (td a v) = Ea v /\ eft (td b v) = Eb v
+        | Some (u, k, eu, fa, fb) =>
+            In (v, k) (t_outputs c u) /\ est (td a v) = E1 k eu (R u)
+            /\ eft (td a v) = F1 k eu (R u) (R v) fa /\ eft (td b v) = F1 k eu (R u) (R v) fb
+            /\ (eu <= est (td a u))%Q
+        end).
+
+Definition SatG (x : (pstate * pstate) * ghost) (u : nat) (e : nat * dep) : Prop :=
+  forall eu fa fb, snd x (fst e) = Some (u, snd e, eu, fa, fb) ->
+    eu = est (td (fst (fst x)) u) /\ fa = eft (td (fst (fst x)) u) /\ fb = eft (td (snd (fst x)) u).
+
+Lemma step3_eq a b g u v k :
+  step3 ((a, b), g) u (v, k) =
+  ((fwd_edge a u (v, k), fwd_edge b u (v, k)),
+   if Qleb (est (td a v)) (E1 k (est (td a u)) (rem (td a u)))
+   then upd g v (Some (u, k, est (td a u), eft (td a u), eft (td b u))) else g).
+Proof. reflexivity. Qed.
+
+Lemma ne_of_edge u e : In e (t_outputs c u) -> fst e <> u.
+Proof. intros He F. pose proof (dg_rank DAG u e He) as H. rewrite F in H. lia. Qed.
+
+Lemma GoodG_step x u e : In e (t_outputs c u) -> GoodG x -> GoodG (step3 x u e).
+Proof.
+  destruct x as [[a b] g]. destruct e as [v k]. intros He (G1 & G2).
+  assert (Hu : u < nT c) by (apply (src_lt u _ He)).
+  assert (Hv : v < nT c) by (apply (dg_range_out DAG u _ He)).
+  assert (Hne : v <> u) by (apply (ne_of_edge u _ He)).
+  cbn [fst snd] in G1, G2.
+  destruct (G1 u Hu) as (_ & Ru & _ & _ & Eu & RRu). destruct (G1 v Hv) as (Sv & Rv & Awv & Afv & Ev & RRv).
+  rewrite step3_eq, !fwd_edge_eq, !fwd_vals_E1, !fwd_vals_F1. rewrite <- Ev, <- Eu, <- Ru, <- Rv.
+  destruct (Qleb (est (td a v)) (E1 k (est (td a u)) (rem (td a u)))) eqn:Ec; [|split; assumption].
+  apply Qleb_true in Ec.
+  unfold GoodG. cbn [fst snd td with_td]. split.
+  - intros w Hw. rewrite !upd_eq. destruct (Nat.eqb w v) eqn:Ew; [|apply G1; exact Hw].
+    apply Nat.eqb_eq in Ew. subst w. cbn. repeat split; assumption.
+  - intros w Hw. rewrite !upd_eq. destruct (Nat.eqb w v) eqn:Ew.
+    + apply Nat.eqb_eq in Ew. subst w. cbn [est eft set_est_eft].
+      assert (Euv : Nat.eqb u v = false) by (apply Nat.eqb_neq; congruence).
+      rewrite upd_eq, Euv, RRu, RRv. repeat split; try reflexivity; [exact He|apply Qle_refl].
+    + specialize (G2 w Hw). destruct (g w) as [[[[[u' k'] eu] fa] fb]|]; [|exact G2].
+      destruct G2 as (A1 & A2 & A3 & A4 & A5). repeat split; try assumption.
+      rewrite upd_eq. destruct (Nat.eqb u' v) eqn:Eu'; [|exact A5].
+      apply Nat.eqb_eq in Eu'. subst u'. cbn [est set_est_eft]. lra.
+Qed.
+
+Lemma SatG_new x u e : In e (t_outputs c u) -> GoodG x -> SatG (step3 x u e) u e.
+Proof.
+  destruct x as [[a b] g]. destruct e as [v k]. intros He (G1 & G2).
+  assert (Hu : u < nT c) by (apply (src_lt u _ He)).
+  assert (Hv : v < nT c) by (apply (dg_range_out DAG u _ He)).
+  assert (Hne : v <> u) by (apply (ne_of_edge u _ He)).
+  cbn [fst snd] in G1, G2.
+  destruct (G1 u Hu) as (_ & Ru & _ & _ & Eu & RRu). destruct (G1 v Hv) as (Sv & Rv & Awv & Afv & Ev & RRv).
+  rewrite step3_eq, !fwd_edge_eq, !fwd_vals_E1. rewrite <- Ev, <- Eu, <- Ru.
+  assert (Euv : Nat.eqb u v = false) by (apply Nat.eqb_neq; congruence).
+  intros eu fa fb. cbn [fst snd].
+  destruct (Qleb (est (td a v)) (E1 k (est (td a u)) (rem (td a u)))) eqn:Ec.
+  - rewrite upd_same. intros E. injection E as <- <- <-. cbn [td with_td]. rewrite !upd_eq, Euv. repeat split.
+  - intros E. exfalso. apply Qleb_false in Ec. specialize (G2 v Hv). rewrite E in G2.
+    destruct G2 as (_ & A2 & _ & _ & A5). rewrite A2, RRu in Ec.
+    pose proof (E1_mono k eu (est (td a u)) (R u) A5). lra.
+Qed.
+
+Lemma SatG_keep x u e u' e' : In e (t_outputs c u) -> In e' (t_outputs c u') -> GoodG x ->
+  SatG x u' e' -> fst e <> u' -> SatG (step3 x u e) u' e'.
+Proof.
+  destruct x as [[a b] g]. destruct e as [v k]. destruct e' as [v' k']. intros He He' (G1 & G2) HS Hne'.
+  assert (Hu : u < nT c) by (apply (src_lt u _ He)).
+  assert (Hv : v < nT c) by (apply (dg_range_out DAG u _ He)).
+  assert (Hne : v <> u) by (apply (ne_of_edge u _ He)).
+  cbn [fst snd] in *.
+  destruct (G1 u Hu) as (_ & Ru & _ & _ & Eu & RRu). destruct (G1 v Hv) as (Sv & Rv & Awv & Afv & Ev & RRv).
+  rewrite step3_eq, !fwd_edge_eq, !fwd_vals_E1. rewrite <- Ev, <- Eu, <- Ru.
+  intros eu fa fb. cbn [fst snd].
+  destruct (Qleb (est (td a v)) (E1 k (est (td a u)) (rem (td a u)))) eqn:Ec; [|apply HS].
+  assert (Eu'v : Nat.eqb u' v = false) by (apply Nat.eqb_neq; congruence).
+  cbn [td with_td]. rewrite !upd_eq, Eu'v.
+  destruct (Nat.eqb v' v) eqn:Ev'.
+  - intros E. injection E as <- <- <- <- <-. repeat split.
+  - intros E. apply (HS eu fa fb). exact E.
+Qed.
+
+(* the result: equal branches, and every node is explained either by its
+   initial value or by the final values of the source of one incoming edge *)
+Theorem forward_ghost (ia ib : pstate) :
+  (forall v, v < nT c -> st (td ia v) = st (td ib v) /\ rem (td ia v) = rem (td ib v) /\ aw (td ia v) = aw (td ib v)
+                         /\ af (td ia v) = af (td ib v) /\ est (td ia v) = est (td ib v) /\ rem (td ia v) = R v) ->
+  (forall v, v < nT c -> eft (td ia v) = Ea v /\ eft (td ib v) = Eb v) ->
+  let fa := loop pstate (t_outputs c) fwd_edge (S (nT c)) ia (heads c) in
+  let fb := loop pstate (t_outputs c) fwd_edge (S (nT c)) ib (heads c) in
+  (forall v, v < nT c -> st (td fa v) = st (td fb v) /\ rem (td fa v) = rem (td fb v) /\ aw (td fa v) = aw (td fb v)
+                         /\ af (td fa v) = af (td fb v) /\ est (td fa v) = est (td fb v) /\ rem (td fa v) = R v)
+  /\ forall v, v < nT c ->
+       (eft (td fa v) = Ea v /\ eft (td fb v) = Eb v)
+       \/ exists u k, In (v, k) (t_outputs c u)
+            /\ eft (td fa v) = F1 k (est (td fa u)) (R u) (R v) (eft (td fa u))
+            /\ eft (td fb v) = F1 k (est (td fa u)) (R u) (R v) (eft (td fb u)).
+Proof.
+  intros H1 H2. cbv zeta.
+  set (x0 := ((ia, ib), (fun _ : nat => @None (nat * dep * Q * Q * Q)))).
+  assert (G0 : GoodG x0).
+  { split; [exact H1|]. intros v Hv. cbn. apply H2. exact Hv. }
+  destruct (loop_result ((pstate * pstate) * ghost) (t_outputs c) step3 rank (nT c)
+              (fun u e He => conj (dg_rank DAG u e He) (dg_rank_bound DAG _ (dg_range_out DAG u e He)))
+              GoodG (fun _ _ => True) SatG
+              (fun s0 u e He G _ => GoodG_step s0 u e He G)
+              (fun _ _ _ _ _ _ => I) (fun _ _ _ _ _ _ _ _ => I)
+              (fun s0 u e He G _ => SatG_new s0 u e He G)
+              (fun s0 u e u' e' He He' G _ => SatG_keep s0 u e u' e' He He' G)
+              (S (nT c)) x0 (heads c) G0) as (P & Hheads & HG & _ & HP).
+  { intros x Hx. split; [exact I|]. unfold heads in Hx. apply filter_In in Hx. destruct Hx as [Hx _]. unfold tasks in Hx. apply in_seq in Hx.
+    apply (dg_rank_bound DAG). lia. }
+  { lia. }
+  set (xf := loop ((pstate * pstate) * ghost) (t_outputs c) step3 (S (nT c)) x0 (heads c)) in *.
+  assert (Efst : fst xf = (loop pstate (t_outputs c) fwd_edge (S (nT c)) ia (heads c),
+                           loop pstate (t_outputs c) fwd_edge (S (nT c)) ib (heads c))).
+  { unfold xf, x0. rewrite (loop_ghost (pstate * pstate) ghost (t_outputs c) (step2 pstate fwd_edge) gstep).
+    apply loop_pair. }
+  destruct HG as (G1 & G2). rewrite Efst in G1, G2. cbn [fst snd] in G1, G2.
+  split; [exact G1|].
+  intros v Hv. specialize (G2 v Hv).
+  destruct (snd xf v) as [[[[[u k] eu] fa] fb]|] eqn:Eg; [|left; exact G2].
+  right. destruct G2 as (A1 & A2 & A3 & A4 & A5).
+  assert (Hu : u < nT c) by (apply (src_lt u _ A1)).
+  assert (Hin : In u P) by (apply (all_in_P P Hheads (fun u0 Hu0 e He => proj1 (HP u0 Hu0 e He)) (S (rank u))); [lia|exact Hu]).
+  destruct (HP u Hin (v, k) A1) as [_ HS]. unfold SatG in HS. cbn [fst snd] in HS.
+  destruct (HS eu fa fb Eg) as (B1 & B2 & B3). rewrite Efst in B1, B2, B3. cbn [fst snd] in B1, B2, B3.
+  exists u, k. split; [exact A1|]. subst eu fa fb. split; assumption.
+Qed.
+End FwdAny.
+
+(* the backward pass writes lst / lft only *)
+Definition keepsE (s s' : pstate) : Prop := forall t, est (td s' t) = est (td s t) /\ eft (td s' t) = eft (td s t).
+Lemma keepsE_refl s : keepsE s s. Proof. intros t; split; reflexivity. Qed.
+Lemma keepsE_trans s1 s2 s3 : keepsE s1 s2 -> keepsE s2 s3 -> keepsE s1 s3.
+Proof. intros A B t. destruct (A t), (B t). split; congruence. Qed.
+Lemma keepsE_bwd_edge s o e : keepsE s (bwd_edge s o e).
+Proof.
+  destruct e as [p k]. rewrite bwd_edge_eq. destruct (_ || _); [|apply keepsE_refl].
+  intros t. cbn [td with_td]. rewrite upd_eq. destruct (Nat.eqb t p) eqn:E; [apply Nat.eqb_eq in E; subst; split; reflexivity|split; reflexivity].
+Qed.
+Lemma keepsE_pert_backward s : keepsE s (pert_backward c s).
+Proof.
+  unfold pert_backward.
+  set (r := with_td s (tab (nT c) (fun t => set_lst_lft (td s t) (-1)%Q (-1)%Q) (td s))).
+  assert (H0 : keepsE s r).
+  { intros t. unfold r. cbn [td with_td]. rewrite tab_spec. destruct (t <? nT c); split; reflexivity. }
+  fold (tails c). destruct (tails c) as [|t0 l] eqn:Et; [intros t; apply H0|]. rewrite <- Et.
+  rewrite bwd_loop_eq. set (cp := max_eft r (tails c)).
+  eapply keepsE_trans; [exact H0|].
+  assert (H1 : keepsE r (fold_left (fun s' t => with_td s' (upd (td s') t (set_lst_lft (td s' t) (cp - rem (td s' t))%Q cp))) (tails c) (with_cpl r cp))).
+  { intros t. rewrite (tails_fold_td cp). cbn [td with_cpl]. destruct (mem t (tails c)); split; reflexivity. }
+  eapply keepsE_trans; [exact H1|].
+  apply (loop_inv (t_inputs c) bwd_edge (fun s0 => keepsE (fold_left _ (tails c) (with_cpl r cp)) s0)); [|apply keepsE_refl].
+  intros s0 o e _ Hs. eapply keepsE_trans; [exact Hs|apply keepsE_bwd_edge].
+Qed.
+
 (* ================================================================ the whole *)
 Lemma pstate_ext (x y : pstate) :
   time x = time y -> status x = status y -> cpl x = cpl y -> (forall v, td x v = td y v) -> wd x = wd y -> fd x = fd y ->
@@ -339,6 +584,52 @@ Proof.
   destruct (backward_pair (pert_forward c t0 u) (pert_forward c t0 x) HF) as [HB Hcp].
   change (pert_backward c (pert_forward c t0 x)) with u in HB, Hcp.
   change (pert_backward c (pert_forward c t0 u)) with (update_pert c tm u) in HB, Hcp.
+  apply pstate_ext; try (apply (pi_update_pert c _ _); reflexivity); try exact Hcp.
+  intros v. destruct (Nat.lt_ge_cases v (nT c)) as [Hv|Hv]; [apply HB; exact Hv|].
+  unfold update_pert at 1. rewrite td_high_bwd, td_high_fwd by exact Hv. reflexivity.
+Qed.
+
+(* the PERT refresh is idempotent on its own result for EVERY acyclic network
+   and EVERY state: no sign condition on the remaining work (a task blocked by
+   a finish-to-finish or start-to-finish link overshoots its work) *)
+Theorem pert_refresh_idempotent_any (tm : nat) (x : pstate) :
+  let y := update_pert c tm x in update_pert c tm y = y.
+Proof.
+  intros y.
+  set (t0 := inject_nat tm).
+  assert (Hk : forall v, st (td y v) = st (td x v) /\ rem (td y v) = rem (td x v) /\ aw (td y v) = aw (td x v) /\ af (td y v) = af (td x v))
+    by (intros v; apply (keeps_update_pert c tm x v)).
+  set (fa := pert_forward c t0 x). set (fb := pert_forward c t0 y).
+  assert (Ey : forall v, eft (td y v) = eft (td fa v)) by (intros v; apply (keepsE_pert_backward fa v)).
+  set (ia := fwd_init c t0 x). set (ib := fwd_init c t0 y).
+  assert (Hin : forall v, v < nT c ->
+            td ia v = (match t_inputs c v with [] => set_est_eft (td x v) t0 (t0 + rem (td x v))%Q | _ => set_est_eft (td x v) t0 (eft (td x v)) end)
+            /\ td ib v = (match t_inputs c v with [] => set_est_eft (td y v) t0 (t0 + rem (td y v))%Q | _ => set_est_eft (td y v) t0 (eft (td y v)) end)).
+  { intros v Hv. unfold ia, ib, fwd_init. cbn [td with_td]. rewrite !tab_spec. apply Nat.ltb_lt in Hv. rewrite Hv. split; reflexivity. }
+  pose proof (forward_ghost (fun v => rem (td x v)) (fun v => eft (td ia v)) (fun v => eft (td ib v)) ia ib) as FG.
+  cbv zeta in FG.
+  assert (Efa : loop pstate (t_outputs c) fwd_edge (S (nT c)) ia (heads c) = fa) by (unfold fa, ia; symmetry; apply pert_forward_unfold).
+  assert (Efb : loop pstate (t_outputs c) fwd_edge (S (nT c)) ib (heads c) = fb) by (unfold fb, ib; symmetry; apply pert_forward_unfold).
+  rewrite Efa, Efb in FG.
+  destruct FG as [G1 G2].
+  { intros v Hv. destruct (Hin v Hv) as [Ea Eb]. rewrite Ea, Eb. destruct (Hk v) as (K1 & K2 & K3 & K4).
+    destruct (t_inputs c v); cbn; repeat split; congruence. }
+  { intros v Hv. split; reflexivity. }
+  assert (Heft : forall n v, rank v < n -> v < nT c -> eft (td fa v) = eft (td fb v)).
+  { induction n as [|n IH]; intros v Hr Hv; [lia|].
+    destruct (G2 v Hv) as [[A B]|(u0 & k & Hout & A & B)].
+    - rewrite B. destruct (Hin v Hv) as [_ Eb]. rewrite Eb.
+      destruct (t_inputs c v) eqn:Ei; cbn [eft set_est_eft].
+      + rewrite A. destruct (Hin v Hv) as [Ea _]. rewrite Ea, Ei. cbn [eft set_est_eft]. rewrite (proj1 (proj2 (Hk v))). reflexivity.
+      + symmetry. apply Ey.
+    - rewrite A, B. pose proof (dg_rank DAG u0 _ Hout) as Hrk. cbn [fst] in Hrk.
+      rewrite (IH u0 ltac:(lia) (src_lt u0 _ Hout)). reflexivity. }
+  assert (HF : forall v, v < nT c -> core (td fb v) (td fa v) /\ eft (td fb v) = eft (td fa v)).
+  { intros v Hv. destruct (G1 v Hv) as (A1 & A2 & A3 & A4 & A5 & _). split; [unfold core; repeat split; congruence|].
+    symmetry. apply (Heft (S (rank v))); [lia|exact Hv]. }
+  destruct (backward_pair fb fa HF) as [HB Hcp].
+  change (pert_backward c fa) with y in HB, Hcp.
+  change (pert_backward c fb) with (update_pert c tm y) in HB, Hcp.
   apply pstate_ext; try (apply (pi_update_pert c _ _); reflexivity); try exact Hcp.
   intros v. destruct (Nat.lt_ge_cases v (nT c)) as [Hv|Hv]; [apply HB; exact Hv|].
   unfold update_pert at 1. rewrite td_high_bwd, td_high_fwd by exact Hv. reflexivity.
